@@ -55,6 +55,12 @@ def build(ctx):
     for s in gen_seq.random_classes(rng, ctx.pick(120, 800), 1, 40):
         t = ''.join((c.lower() if rng.random() < 0.4 else c) + (rng.choice(ws) if rng.random() < 0.15 else '') for c in s)
         inputs.append(t)
+    # whitespace AND an invalid character in one string, in either order (a "warned once" flag must not swallow the junk)
+    junk = ['1', 'X', '*', '-', 'b', 'Z', '.', '\x00', 'é', '5', 'u', '_']
+    for s in gen_seq.random_classes(rng, ctx.pick(60, 300), 2, 25):
+        w, j = rng.choice(ws), rng.choice(junk)
+        i, k = sorted((rng.randint(0, len(s)), rng.randint(0, len(s))))
+        inputs += [s[:i] + w + s[i:k] + j + s[k:], s[:i] + j + s[i:k] + w + s[k:], w + s + j, w + j + s, s + w + j]
     base = 'EKGS'
     for c in range(128):
         ch = chr(c)
